@@ -304,13 +304,136 @@ Proof.
   - intros j Hj. rewrite nth_linspace by exact L. rewrite <- !Hnth by assumption. apply A. exact Hj.
 Qed.
 
-Lemma fc_closest_coarse (minimise : R -> R) f lo hi cnt q :
-  (1 <= cnt)%nat ->
-  (forall t0, dist (f (minimise t0)) q <= dist (f t0) q) ->
-  forall j, (j < cnt)%nat -> dist (f (fc_closest minimise f lo hi cnt q)) q <= dist (f (lin_at lo hi cnt j)) q.
+(** ** stable argsort: its members are the indices, its head is the argmin *)
+Lemma insert_idx_in d k l x : In x (insert_idx d k l) <-> x = k \/ In x l.
 Proof.
-  intros H Hmin j Hj. unfold fc_closest.
+  induction l as [|j t IH]; simpl.
+  - intuition congruence.
+  - destruct (Rle_dec (d k) (d j)); simpl; [|rewrite IH]; intuition congruence.
+Qed.
+
+Lemma argsort_from_S d i n : argsort_from d i (S n) = insert_idx d i (argsort_from d (S i) n).
+Proof. reflexivity. Qed.
+
+Lemma argsort_from_in d : forall n i x, In x (argsort_from d i n) <-> (i <= x < i + n)%nat.
+Proof.
+  induction n as [|n IH]; intros i x.
+  - simpl. split; [tauto|lia].
+  - rewrite argsort_from_S, insert_idx_in, IH. lia.
+Qed.
+
+Lemma argsort_from_hd d : forall n i, exists h t,
+  argsort_from d i (S n) = h :: t /\ (i <= h < i + S n)%nat /\
+  forall x, (i <= x < i + S n)%nat -> d h <= d x /\ ((x < h)%nat -> d h < d x).
+Proof.
+  induction n as [|n IH]; intros i.
+  - exists i, []. split; [reflexivity|]. split; [lia|]. intros x Hx. assert (x = i) by lia. subst. split; [lra|lia].
+  - destruct (IH (S i)) as (h & t & E & Hh & Hmin). rewrite argsort_from_S, E. simpl.
+    destruct (Rle_dec (d i) (d h)) as [Hle|Hgt].
+    + exists i, (h :: t). split; [reflexivity|]. split; [lia|]. intros x Hx.
+      assert (x = i \/ S i <= x < S i + S n)%nat as [->|Hx'] by lia; [split; [lra|lia]|].
+      destruct (Hmin x Hx') as [H1 _]. split; [lra|lia].
+    + exists h, (insert_idx d i t). split; [reflexivity|]. split; [lia|]. intros x Hx.
+      assert (x = i \/ S i <= x < S i + S n)%nat as [->|Hx'] by lia; [split; intros; lra|].
+      apply Hmin. exact Hx'.
+Qed.
+
+Lemma argsort_in ds k : In k (argsort ds) <-> (k < length ds)%nat.
+Proof. unfold argsort. rewrite argsort_from_in. lia. Qed.
+
+(** CurveBase.get_closest_param after fixes/C16-2.diff returns the parameter of the first sorted sample: that is
+    np.argmin, the model of the snapshot *)
+Lemma argsort_hd ds : ds <> [] -> exists t, argsort ds = argmin ds :: t.
+Proof.
+  intros Hds. destruct ds as [|d0 ds']; [congruence|]. unfold argsort.
+  destruct (argsort_from_hd (fun i => nth i (d0 :: ds') 0) (length ds') 0) as (h & t & E & Hh & Hmin).
+  change (length (d0 :: ds')) with (S (length ds')). rewrite E. exists t. f_equal. symmetry.
+  apply argmin_charact. unfold is_argmin. simpl length. split; [lia|]. split.
+  - intros j Hj. apply Hmin. lia.
+  - intros j Hj. apply Hmin; lia.
+Qed.
+
+Lemma In_firstn {A} (x : A) n l : In x (firstn n l) -> In x l.
+Proof. intros H. rewrite <- (firstn_skipn n l). apply in_or_app. left. exact H. Qed.
+
+(** ** closest parameter of a function curve: the starts are coarse samples, the first one is the nearest sample *)
+Lemma fc_starts_hd f lo hi cnt ns q :
+  (1 <= cnt)%nat -> (1 <= ns)%nat -> exists t, fc_starts f lo hi cnt ns q = fc_coarse f lo hi cnt q :: t.
+Proof.
+  intros Hc Hn. unfold fc_starts, fc_coarse.
+  set (ds := map (fun p => dist p q) (fc_discretize f lo hi cnt)).
+  assert (Hlen : length ds = cnt).
+  { subst ds. rewrite map_length. unfold fc_discretize. rewrite map_length, linspace_length. reflexivity. }
+  assert (Hds : ds <> []) by (intros E; rewrite E in Hlen; simpl in Hlen; lia).
+  destruct (argsort_hd ds Hds) as (t & E). rewrite E.
+  destruct ns as [|ns]; [lia|]. cbn [firstn map]. eexists. reflexivity.
+Qed.
+
+Lemma fc_starts_samples f lo hi cnt ns q s :
+  In s (fc_starts f lo hi cnt ns q) -> exists k, (k < cnt)%nat /\ s = lin_at lo hi cnt k.
+Proof.
+  unfold fc_starts. intros H. apply in_map_iff in H. destruct H as (k & <- & Hk).
+  apply In_firstn, argsort_in in Hk. rewrite map_length in Hk. unfold fc_discretize in Hk.
+  rewrite map_length, linspace_length in Hk. exists k. split; [exact Hk|]. apply nth_linspace. exact Hk.
+Qed.
+
+(** one start: the search of the snapshot *)
+Lemma fc_closest_one (minimise : R -> R) f lo hi cnt q :
+  (1 <= cnt)%nat -> fc_closest minimise f lo hi cnt 1 q = minimise (fc_coarse f lo hi cnt q).
+Proof.
+  intros Hc. unfold fc_closest. destruct (fc_starts_hd f lo hi cnt 1 q Hc (le_n 1)) as (t & E).
+  assert (Ht : t = []).
+  { unfold fc_starts in E. destruct (argsort (map (fun p => dist p q) (fc_discretize f lo hi cnt))) as [|a l];
+      cbn [firstn map] in E; [discriminate|]. inversion E. reflexivity. }
+  rewrite E, Ht. reflexivity.
+Qed.
+
+(** min(results, key): a member, and no member has a smaller key *)
+Lemma best_of_spec (g : R -> R) rs d :
+  rs <> [] -> In (best_of g rs d) rs /\ forall r, In r rs -> g (best_of g rs d) <= g r.
+Proof.
+  intros Hrs. unfold best_of.
+  assert (Hds : map g rs <> []) by (destruct rs; [congruence|discriminate]).
+  destruct (argmin_spec (map g rs) Hds) as (L & A & _). rewrite map_length in *.
+  split; [apply nth_In; exact L|]. intros r Hr.
+  destruct (In_nth rs r d Hr) as (j & Hj & <-). specialize (A j Hj).
+  rewrite !(nth_map_lt _ _ _ d) in A by assumption. exact A.
+Qed.
+
+(** the result is one of the runs' results and at least as close as every run's result *)
+Lemma fc_closest_runs (minimise : R -> R) f lo hi cnt ns q :
+  (1 <= cnt)%nat -> (1 <= ns)%nat ->
+  (exists s, In s (fc_starts f lo hi cnt ns q) /\ fc_closest minimise f lo hi cnt ns q = minimise s)
+  /\ forall s, In s (fc_starts f lo hi cnt ns q) ->
+       dist (f (fc_closest minimise f lo hi cnt ns q)) q <= dist (f (minimise s)) q.
+Proof.
+  intros Hc Hn. unfold fc_closest.
+  destruct (fc_starts_hd f lo hi cnt ns q Hc Hn) as (t & E).
+  assert (Hrs : map minimise (fc_starts f lo hi cnt ns q) <> []) by (rewrite E; discriminate).
+  destruct (best_of_spec (fun r => dist (f r) q) _ lo Hrs) as [Hin Hbest]. split.
+  - apply in_map_iff in Hin. destruct Hin as (s & Hs & Hin). exists s. split; [exact Hin|]. symmetry. exact Hs.
+  - intros s Hs. apply Hbest. apply in_map. exact Hs.
+Qed.
+
+(** hence never farther than the result of the single-start search of the snapshot (same minimiser) ... *)
+Lemma fc_closest_not_worse (minimise : R -> R) f lo hi cnt ns q :
+  (1 <= cnt)%nat -> (1 <= ns)%nat ->
+  dist (f (fc_closest minimise f lo hi cnt ns q)) q <= dist (f (minimise (fc_coarse f lo hi cnt q))) q.
+Proof.
+  intros Hc Hn. destruct (fc_starts_hd f lo hi cnt ns q Hc Hn) as (t & E).
+  apply (fc_closest_runs minimise f lo hi cnt ns q Hc Hn). rewrite E. left. reflexivity.
+Qed.
+
+(** ... and, for a minimiser that does not return a point farther than its start, at least as close as EVERY coarse
+    sample (the nearest one is among the starts) *)
+Lemma fc_closest_coarse (minimise : R -> R) f lo hi cnt ns q :
+  (1 <= cnt)%nat -> (1 <= ns)%nat ->
+  (forall t0, dist (f (minimise t0)) q <= dist (f t0) q) ->
+  forall j, (j < cnt)%nat -> dist (f (fc_closest minimise f lo hi cnt ns q)) q <= dist (f (lin_at lo hi cnt j)) q.
+Proof.
+  intros H Hn Hmin j Hj.
   destruct (fc_coarse_spec f lo hi cnt q H) as (k & _ & _ & Hk).
+  eapply Rle_trans; [apply fc_closest_not_worse; assumption|].
   eapply Rle_trans; [apply Hmin|]. apply Hk. exact Hj.
 Qed.
 
